@@ -286,6 +286,9 @@ pub struct TspP {
     /// added to the closed tour length (1 keeps the objective strictly positive for degenerate tours; 0 for the
     /// instances in a very small unit, whose tour lengths are themselves positive and far below f64::EPSILON)
     pub offset: f64,
+    /// the instance defines distances between two different cities only (condensed storage): asking for the distance
+    /// of a city to itself is an error of the caller
+    pub strict_diagonal: bool,
     pub dist: Vec<f64>,
     pub name: String,
     pub instr: Instr,
@@ -293,11 +296,13 @@ pub struct TspP {
 impl TspP {
     pub fn new(n: usize, dist: Vec<f64>) -> Self {
         assert_eq!(dist.len(), n * n);
-        Self { n, offset: 1.0, dist, name: format!("tsp-{n}"), instr: Instr::new() }
+        Self { n, offset: 1.0, strict_diagonal: false, dist, name: format!("tsp-{n}"), instr: Instr::new() }
     }
     /// Deterministic matrix from a seed. kind 0: uniform 1..10, 1: clustered, 2: ratio 1e-3..1e6,
     /// 3: one city astronomically far away (1e150) from a uniform cluster - (1/d)^beta underflows to 0,
-    /// 4: uniform 1..10 in a very small unit (1e-18), objective = pure tour length (a few 1e-17)
+    /// 4: uniform 1..10 in a very small unit (1e-18), objective = pure tour length (a few 1e-17),
+    /// 5: uniform 1..10, distances defined between different cities only (`strict_diagonal`),
+    /// 6: uniform 1..10 with about a third of the edges missing (weight +inf: tours through them are infeasible)
     pub fn generated(n: usize, kind: u8, seed: u64) -> Self {
         let mut dist = vec![0.0; n * n];
         let mut s = seed.wrapping_mul(0x9E3779B97F4A7C15).wrapping_add(kind as u64 + 1);
@@ -321,6 +326,14 @@ impl TspP {
                     }
                     2 => 10f64.powf(-3.0 + 9.0 * u),
                     4 => (1.0 + 9.0 * u) * 1e-18,
+                    5 => 1.0 + 9.0 * u,
+                    6 => {
+                        if u < 0.33 {
+                            f64::INFINITY
+                        } else {
+                            1.0 + 9.0 * u
+                        }
+                    }
                     _ => {
                         if j == n - 1 {
                             1e150 * (1.0 + u)
@@ -336,6 +349,9 @@ impl TspP {
         let mut p = Self::new(n, dist);
         if kind == 4 && n >= 2 {
             p.offset = 0.0;
+        }
+        if kind == 5 {
+            p.strict_diagonal = true;
         }
         p
     }
@@ -374,6 +390,9 @@ impl VectorProblem for TspP {
 }
 impl TravellingSalespersonProblem for TspP {
     fn distance(&self, edge: (usize, usize)) -> f64 {
+        if self.strict_diagonal && edge.0 == edge.1 {
+            panic!("this instance defines no distance from city {} to itself", edge.0);
+        }
         self.d(edge.0, edge.1)
     }
 }
